@@ -227,6 +227,21 @@ def inferType (Γ : Ctx) (Δ : Option Ctx) : IR → Option HType
       let s ← inferType D none a
       some (.array s)
     | none => none
+  | .aggExplode x e b =>
+    match Δ with
+    | some D => do
+      let s ← inferType D none e
+      match s with
+      | .stream u => inferType Γ (some ((x, u) :: D)) b
+      | _ => none
+    | none => none
+  | .aggGroupBy k b =>
+    match Δ with
+    | some D => do
+      let kt ← inferType D none k
+      let bt ← inferType Γ (some D) b
+      some (.dict kt bt)
+    | none => none
 
 /-! ## Values inhabiting a type
 
